@@ -33,7 +33,8 @@ type C14Case struct {
 	Primer      bool     `json:"primer,omitempty"`   // e2e: the same user, then still holding an administrator group, is served first
 }
 
-var adminPool = []string{"AetherROCAdmin", "EnterpriseAdmin", "ops", "net-admins", "Admin"}
+// names as identity providers allow them: also with blanks inside (the variable is a COMMA separated list)
+var adminPool = []string{"AetherROCAdmin", "EnterpriseAdmin", "ops", "net-admins", "Admin", "Aether ROC Admin", "site operators"}
 
 func genC14(rt *rapid.T) C14Case {
 	c := C14Case{}
@@ -55,7 +56,10 @@ func genC14(rt *rapid.T) C14Case {
 			if len(c.AdminGroups) > 0 {
 				base = c.AdminGroups[rapid.IntRange(0, len(c.AdminGroups)-1).Draw(rt, "base")]
 			}
-			switch rapid.IntRange(0, 8).Draw(rt, "gkind") {
+			switch rapid.IntRange(0, 9).Draw(rt, "gkind") {
+			case 9: // one word of an administrator group's name
+				ws := strings.Fields(base)
+				g = ws[rapid.IntRange(0, len(ws)-1).Draw(rt, "word")]
 			case 0, 1: // exact member
 				g = base
 			case 2: // proper substring
